@@ -46,11 +46,15 @@ def Func.toSExp : Func → SExp
   | .call h => .list [.sym "call", h.toSExp]
   | .identityCast k => .list [.sym "icast", k.toSExp]
   | .toContainer k => .list [.sym "cont", k.toSExp]
+  | .bindFirst => .list [.sym "bindfirst"]
+  | .constNone => .list [.sym "constnone"]
 
 def Func.ofSExp? : SExp → Option Func
   | .list [.sym "call", h] => do some (.call (← Obj.ofSExp? h))
   | .list [.sym "icast", k] => do some (.identityCast (← Kind.ofSExp? k))
   | .list [.sym "cont", k] => do some (.toContainer (← Kind.ofSExp? k))
+  | .list [.sym "bindfirst"] => some .bindFirst
+  | .list [.sym "constnone"] => some .constNone
   | _ => none
 
 partial def Node.toSExp : Node → SExp
